@@ -31,4 +31,4 @@ def main(tier, seed):
 
 
 def replay(path):
-    return deps_run.replay(path, ("rot",))
+    return deps_run.replay(path)
